@@ -163,6 +163,7 @@ func short(s string) string {
 // propFound is set by every PropFail of this harness: the search stops at the first concrete failing input.
 var propFound bool
 var tieFails int
+var knownFlagSeen bool // the known finding flag-change-not-durable has been recorded (once per run; every hit is in the histogram)
 
 func propFail(key, what string, replay interface{}) {
 	propFound = true
@@ -310,6 +311,7 @@ func runCase(c caseT) bool {
 				r.Hit("open:log-present")
 			}
 		}
+		listing0 := listing // the directory before this request
 		wr, alive := W.ask(line)
 		oline := line
 		if alive && (op == "browse" || op == "browseall") {
@@ -339,6 +341,16 @@ func runCase(c caseT) bool {
 		if bad := ref.check(t, wres); bad != "" {
 			propFail("prop:"+op, fmt.Sprintf("request %d %q: %s", i, short(line), bad), upto(i))
 			return false
+		}
+		if ref.known != "" {
+			// KNOWN FINDING flag-change-not-durable: the real result obeys the rule "flag word after NewDBExt = flag word at
+			// the record's last persist" but is not what an in-memory map with flags shows (the case goes on: the reference
+			// keeps both views)
+			r.Hit("known:flag-change-not-durable")
+			if !knownFlagSeen {
+				knownFlagSeen = true
+				r.PropFail("flag-change-not-durable", fmt.Sprintf("request %d %q of %s: %s", i, short(line), c.Name, ref.known), upto(i))
+			}
 		}
 		if !desync {
 			if wr != or {
@@ -389,6 +401,7 @@ func runCase(c caseT) bool {
 		if !crashed {
 			ref.save()
 			ref.after(t, wstate)
+			ref.persist(t, wstate, listing0, listing)
 		} else if op == "open" {
 			// first NewDBExt after a crash: the content it came up with must satisfy the durability rule, and the history
 			// goes on from it (that is a sync point). It is read WITHOUT touching W — the recovery process opens a copy of
@@ -506,7 +519,8 @@ func orderedWalk(walk string, order []uint64) string {
 	return strings.Join(ps, ",")
 }
 
-var crashPoints, crashStatesDistinct int
+var crashPoints, crashStatesDistinct, allOrNothingChecked int
+var mixtureSeen bool
 
 // recoverDir sends one recover / probe request to the recovery process, replacing the process first when the policy
 // says so (or when it is dead).
@@ -580,6 +594,18 @@ func crashCheck(c caseT, i int, t []string, ref *refT, desync bool) (ok bool, ti
 				propFail("prop:durable:"+tag, what, map[string]interface{}{"case": upto, "crash_at": tag, "recovered": rec})
 				return false, false
 			}
+			// all keys old or all keys new (stronger than the property sentence; what qdb_durable claims)
+			if ref.inexact {
+				// (the NewDBExt that follows a crashat: the reference adopts what it finds)
+			} else if mix := ref.allOrNothing(rec); mix != "" {
+				r.Hit("mixture@" + tag)
+				if !mixtureSeen {
+					mixtureSeen = true
+					r.TieFail("tie:no-mixture", fmt.Sprintf("request %d %q, crash at %s: %s", i, short(c.Lines[i]), tag, mix), map[string]interface{}{"case": upto, "crash_at": tag, "recovered": rec})
+				}
+			} else {
+				allOrNothingChecked++
+			}
 			// continuation probe: the recovered store must keep working durably
 			if want := withSentinel(rec); cmd == "probe " && pr != want {
 				what := fmt.Sprintf("request %d %q, crash at %s: after recovery, Put+Sync+Close+reopen gives %q, want %q (%s)", i, short(c.Lines[i]), tag, short(pr), short(want), R.lastErr())
@@ -652,7 +678,7 @@ func main() {
 		runCase(c)
 	}
 	g := r.Rng
-	ncases := r.N(110, 3600)
+	ncases := r.N(100, 3600)
 	tf0 := tieFails // (the search for a concrete failing input goes on for six more disagreeing generated cases)
 	for i := 0; i < ncases && !propFound && tieFails-tf0 < 6; i++ {
 		if i == freshPerSnapshotCases {
@@ -693,6 +719,7 @@ func firstLines(c caseT, n int) []string {
 func finish() {
 	r.Extra["crash_points_evaluated"] = crashPoints
 	r.Extra["recovered_states_distinct_per_request_sum"] = crashStatesDistinct
+	r.Extra["crash_points_all_old_or_all_new"] = allOrNothingChecked
 	r.Extra["seconds_in_impl_worker"] = (retiredSpent[&W] + W.spent).Seconds()
 	r.Extra["seconds_in_recovery_worker"] = (retiredSpent[&R] + R.spent).Seconds()
 	r.Extra["recoveries_in_a_new_process"] = recoveriesFreshProc
